@@ -68,7 +68,11 @@ pub fn gen_ctor(rng: &mut Rng) -> Ctor {
 
 pub fn gen_parse_case(rng: &mut Rng, force_valid: bool) -> ParseCase {
     let mut cfg = gen_cfg(rng);
-    let size = rng.weighted(&[3, 5, 2]);
+    let size = if !cfg!(miri) && rng.chance(1, 400) {
+        3
+    } else {
+        rng.weighted(&[3, 5, 2])
+    };
     let class = if force_valid {
         0
     } else {
@@ -76,7 +80,7 @@ pub fn gen_parse_case(rng: &mut Rng, force_valid: bool) -> ParseCase {
     };
     let (doc, spans) = match class {
         2 => {
-            let n = [4, 24, 120][size] + rng.below(8);
+            let n = [4, 24, 120, 40_000][size] + rng.below(8);
             (gen::arbitrary(rng, cfg.kind, n), vec![])
         }
         c => {
@@ -504,6 +508,15 @@ fn fault_offsets(case: &ParseCase) -> Vec<usize> {
         v.push(len);
         v.sort_unstable();
         v.dedup();
+        if v.len() > 300 {
+            // huge documents: thin the sweep out evenly (keeps both ends)
+            let stride = v.len() / 300 + 1;
+            let last = *v.last().unwrap();
+            v = v.into_iter().step_by(stride).collect();
+            if v.last() != Some(&last) {
+                v.push(last);
+            }
+        }
         v
     }
 }
@@ -528,8 +541,8 @@ impl Prop for C04 {
     }
     fn runs(&self, tier: Tier) -> u64 {
         match (tier, cfg!(debug_assertions)) {
-            (Tier::Quick, true) => 20_000,
-            (Tier::Quick, false) => 20_000,
+            (Tier::Quick, true) => 12_000,
+            (Tier::Quick, false) => 12_000,
             (Tier::Thorough, true) => 2_000_000,
             (Tier::Thorough, false) => 2_000_000,
         }
@@ -680,7 +693,86 @@ impl Prop for C04 {
     }
 }
 
-#[allow(dead_code)]
-pub fn kind_of(case: &ParseCase) -> PKind {
-    case.cfg.kind
+// ----------------------------------------------------------------------------- C14p (Miri only)
+
+/// Parser drives meant to run under Miri: tiny documents of the parsers that do raw 8-byte loads
+/// (BTOR2 keyword scanner, the decimal scanners behind every number token), small chunk sizes and
+/// boundary-targeted read plans. Natively this component judges nothing (Miri is the oracle).
+pub struct MiriParse;
+
+impl Prop for MiriParse {
+    type Case = ParseCase;
+    fn id(&self) -> &'static str {
+        "C14p"
+    }
+    fn meta(&self) -> Meta {
+        Meta {
+            level: "exploration",
+            rule: "tiny grammar-valid or mutated btor2 / cnf / aag / aig documents under small chunk sizes and boundary-targeted read plans, executed under Miri",
+            assumptions: vec![],
+            real: vec!["BTOR2 keyword scanner", "decimal scanners", "parsers"],
+            stub: vec!["byte source (SimSource)"],
+        }
+    }
+    fn runs(&self, _tier: Tier) -> u64 {
+        0
+    }
+    fn gen(&self, rng: &mut Rng, _tier: Tier) -> ParseCase {
+        let kind = *rng.pick(&[PKind::Btor2, PKind::Btor2, PKind::Btor2, PKind::Cnf, PKind::Aag, PKind::Aig, PKind::SatLog]);
+        let cfg = PCfg {
+            kind,
+            lit: rng.below(5) as u8,
+            flag: false,
+            whole: false,
+        };
+        let d = gen::valid(rng, &cfg, 0);
+        let spans: Vec<(usize, usize)> = d.toks.iter().map(|t| (t.start, t.len)).collect();
+        let mut doc = d.bytes;
+        let class = if rng.chance(1, 3) {
+            gen::mutate(rng, &mut doc, &d.toks);
+            1
+        } else {
+            0
+        };
+        doc.truncate(160);
+        let cuts: Vec<usize> = spans.iter().flat_map(|&(s, l)| [s, s + l]).collect();
+        let interrupts = rng.below(2) as u8;
+        let src = gen_plan(rng, doc.len(), &cuts, interrupts);
+        ParseCase {
+            cfg,
+            doc,
+            class,
+            spans,
+            ctor: Ctor::Reader {
+                via: Via::FromRead,
+                chunk: Some(*rng.pick(&[1usize, 3, 7, 8, 9, 15, 16, 17, 31, 64])),
+            },
+            junk: vec![],
+            src,
+            only_k: None,
+            fault_kind: 0,
+        }
+    }
+    fn exec(&self, case: &ParseCase, st: &mut Stats) -> RunOut {
+        let (got, src) = run_scheduled(case, None);
+        let s = src.state();
+        st.steps += s.c.calls + got.items.len() as u64;
+        RunOut {
+            violation: None,
+            key: None,
+            trace: s.trace.0,
+        }
+    }
+    fn shrink(&self, _case: &ParseCase) -> Vec<ParseCase> {
+        vec![]
+    }
+    fn encode(&self, case: &ParseCase, kv: &mut Kv) {
+        encode_case(case, kv)
+    }
+    fn decode(&self, kv: &Kv) -> Option<ParseCase> {
+        decode_case(kv)
+    }
+    fn sample(&self, case: &ParseCase) -> Json {
+        sample_case(case)
+    }
 }
